@@ -251,6 +251,46 @@ func TestVerif_C14(t *testing.T) {
 			}
 		}
 		r.Count("honest_signatures_verified", 1)
+		// the same signers sign a second message with the same auxiliary seed: if the commitment repeats, the two
+		// public signatures give away the weighted aggregate secret and a third message can be signed without any
+		// private key (s1-s2 = (c1-c2)*Y)
+		if k <= 16 || rng.Intn(6) == 0 {
+			var msg2, msg3 crypto.Hash
+			rng.Read(msg2[:])
+			rng.Read(msg3[:])
+			sig2, err2 := crypto.AggregateSign(vC14Privs(vec, signers), publics, signers, seed, msg2)
+			refKey, okKey := vC14RefKey(publics, signers)
+			if err2 == nil && sig2 != nil && okKey {
+				r.Count("second_message_same_seed_signed", 1)
+				if string(sig2[:32]) == string(good[:32]) {
+					ch := func(m crypto.Hash) *edwards25519.Scalar {
+						h := sha512.New()
+						h.Write(good[:32])
+						h.Write(refKey)
+						h.Write(m[:])
+						return vC14Scalar(h.Sum(nil))
+					}
+					s1, e1 := edwards25519.NewScalar().SetCanonicalBytes(good[32:])
+					s2, e2 := edwards25519.NewScalar().SetCanonicalBytes(sig2[32:])
+					forged := false
+					var fsig crypto.Signature
+					if e1 == nil && e2 == nil {
+						dc := edwards25519.NewScalar().Subtract(ch(msg), ch(msg2))
+						ds := edwards25519.NewScalar().Subtract(s1, s2)
+						y := edwards25519.NewScalar().Multiply(ds, edwards25519.NewScalar().Invert(dc))
+						fsig = vC14Schnorr(rng, y, refKey, msg3)
+						forged = crypto.AggregateVerify(&fsig, publics, signers, msg3) == nil
+					}
+					what := "two signatures by the same signer set over different messages (same seed) carry the same commitment"
+					if forged {
+						what += "; from these two public signatures a signature over a third message was computed without any private key and AggregateVerify accepts it"
+					}
+					r.Violation("C14|AggregateSign|commitment-repeats-across-messages|"+sizeClass, what,
+						desc(map[string]any{"signature_1": hex.EncodeToString(good[:]), "message_2": hex.EncodeToString(msg2[:]), "signature_2": hex.EncodeToString(sig2[:]),
+							"message_3": hex.EncodeToString(msg3[:]), "forged_signature_3": hex.EncodeToString(fsig[:]), "forgery_accepted": forged}))
+				}
+			}
+		}
 		sizeHist[fmt.Sprintf("n%03d-%03d", (n-1)/50*50+1, (n-1)/50*50+50)]++
 		switch {
 		case k == 1:
